@@ -21,6 +21,7 @@ fi
 DEMO_FLAGS=""; [ -f "$M/demo_flags" ] && DEMO_FLAGS=$(cat "$M/demo_flags")
 
 WT=/tmp/wt-verify-$$
+export VERIF_EVIDENCE_DIR="$PWD/work/evidence-alt"   # evidence/ is for runs against the unchanged /repo only
 git -C /repo worktree add -q --detach "$WT" HEAD || exit 2
 cleanup() { git -C /repo worktree remove --force "$WT" >/dev/null 2>&1; rm -rf /tmp/demo-$$; }
 trap cleanup EXIT
